@@ -188,3 +188,128 @@ func harnessC17TypedTwoEvents() {
 	}) == nil && j == 2, "delivered")
 	vCover("typed-two")
 }
+
+//verif:entry property=C17 tier=both bounds="upcasting inside SubscribeWithReplay: K stored evA events, one raw upcaster evA->evV2 (n+1, v=2) that fails for a chosen event or never; the subscription is for evA or for evV2; every stored event reaches the subscription of its FINAL type (upcast, or original on failure) and no other; error handler once per failure" cover="subscribed" K_quick=2 K_thorough=3
+func harnessC17SubscribeWithReplay() {
+	K := vParam("K", 2)
+	ctx := context.Background()
+	st := NewMemoryStore()
+	writer := New(WithStore(st))
+	ns := make([]int, K)
+	for i := 0; i < K; i++ {
+		ns[i] = vInt(-50, 50)
+		Publish(writer, evA{N: ns[i]})
+	}
+	upErrs := 0
+	bus := New(WithStore(st), WithUpcastErrorHandler(func(t string, d json.RawMessage, err error) {
+		vAssert(t == "eventbus.evA", "error-handler-gets-failing-step")
+		upErrs++
+	}))
+	failAt := vInt(-1, K-1)
+	calls := 0
+	vAssert(RegisterUpcastFunc(bus, "eventbus.evA", "eventbus.evV2", func(d json.RawMessage) (json.RawMessage, string, error) {
+		i := calls
+		calls++
+		if i == failAt {
+			return nil, "", errInjected
+		}
+		var a evA
+		if err := json.Unmarshal(d, &a); err != nil {
+			return nil, "", err
+		}
+		out, err := json.Marshal(evV2{N: a.N + 1, V: 2})
+		return out, "eventbus.evV2", err
+	}) == nil, "register-ok")
+	var gotA []int
+	var gotV2 []evV2
+	var err error
+	asOld := vBool()
+	if asOld {
+		err = SubscribeWithReplay(ctx, bus, "sub", func(e evA) { gotA = append(gotA, e.N) })
+	} else {
+		err = SubscribeWithReplay(ctx, bus, "sub", func(e evV2) { gotV2 = append(gotV2, e) })
+	}
+	vAssert(err == nil, "subscribe-ok")
+	// reference: event i ends as evV2{n+1,2}, or stays evA{n} when its upcast failed
+	var wantA []int
+	var wantV2 []evV2
+	for i := 0; i < K; i++ {
+		if i == failAt {
+			wantA = append(wantA, ns[i])
+		} else {
+			wantV2 = append(wantV2, evV2{N: ns[i] + 1, V: 2})
+		}
+	}
+	if asOld {
+		vAssert(len(gotA) == len(wantA), "failure-shows-original-event")
+		for i := range gotA {
+			if i < len(wantA) {
+				vAssert(gotA[i] == wantA[i], "failure-shows-original-event")
+			}
+		}
+	} else {
+		vAssert(len(gotV2) == len(wantV2), "whole-chain-applied-in-order")
+		for i := range gotV2 {
+			if i < len(wantV2) {
+				vAssert(gotV2[i] == wantV2[i], "whole-chain-applied-in-order")
+			}
+		}
+	}
+	want := 0
+	if failAt >= 0 {
+		want = 1
+	}
+	vAssert(upErrs == want, "error-handler-called-once-for-failure")
+	vCover("subscribed")
+}
+
+type evLoose struct {
+	N int `json:"n"`
+	X any `json:"x"`
+}
+
+//verif:entry property=C17 tier=both bounds="typed upcaster over a source type with an interface-typed field holding a number, a string or nothing: f must see exactly what json.Unmarshal into the source type yields (numbers as float64)" cover="typed-loose"
+func harnessC17TypedLooseField() {
+	ctx := context.Background()
+	st := NewMemoryStore()
+	bus := New(WithStore(st))
+	n := vInt(-100, 100)
+	kind := vPick(3)
+	var x any
+	switch kind {
+	case 0:
+		x = vInt(0, 9)
+	case 1:
+		x = "seven"
+	}
+	Publish(bus, evLoose{N: n, X: x})
+	vAssert(RegisterUpcast(bus, func(a evLoose) evV2 {
+		v := -1
+		switch t := a.X.(type) {
+		case float64:
+			v = int(t)
+		case string:
+			v = -2
+		case nil:
+			v = -3
+		}
+		return evV2{N: a.N, V: v}
+	}) == nil, "register-ok")
+	seen := 0
+	err := bus.ReplayWithUpcast(ctx, OffsetOldest, func(se *StoredEvent) error {
+		seen++
+		var v evV2
+		vAssert(se.Type == "eventbus.evV2" && json.Unmarshal(se.Data, &v) == nil, "typed-final-type")
+		want := -3
+		switch kind {
+		case 0:
+			want = x.(int)
+		case 1:
+			want = -2
+		}
+		vAssert(v.N == n && v.V == want, "typed-json-of-f-of-decoded")
+		return nil
+	})
+	vAssert(err == nil && seen == 1, "delivered")
+	vCover("typed-loose")
+}
